@@ -5,6 +5,8 @@ package mq
 // C09 — frames the decoder must reject are rejected.
 
 func zzMustReject(f []byte, label string) {
+	// the step budget is per call and linear in the frame length
+	zzSetBudget(200000+60*len(f), 1<<40)
 	q, err := ReadPacket(&zzContig{b: f})
 	zzAssert(err != nil, label)
 	if err != nil {
